@@ -7,9 +7,9 @@
    + Channel method + FrameWriter::format_request into the shared 260-byte buffer;
    `submit_wire` is what execute_request hands to the transport. `ref_encode` / `within_limits`
    are the oracle of Spec/ClientCodecSpec.v. Value vectors are unbounded lists. *)
-From Coq Require Import NArith List.
+From Coq Require Import NArith List Arith.
 From Rodbus Require Import Base.Outcome Base.ClientTypes Model.Format Model.Range Model.ClientRequest
-  Spec.ClientCodecSpec Proofs.ClientCodecProofs.
+  Spec.ClientCodecSpec Proofs.ClientCodecProofs Proofs.PackProofs.
 Import ListNotations.
 Local Open Scope N_scope.
 
@@ -51,6 +51,17 @@ Print Assumptions C03_size.
 Theorem C03_total : forall f tx uid c, call_wf c -> client_submit f tx uid c <> Panic.
 Proof. exact submit_total. Qed.
 Print Assumptions C03_total.
+
+(* The Spec's coil packing, stated bitwise: coil k is bit (k mod 8) of byte (k / 8) - LSB first -,
+   every padding bit is 0 (k beyond the vector reads `false`), and there are ceil(n/8) bytes. *)
+Theorem C03_pack_lsb_first : forall bits k,
+  N.testbit (nth (k / 8)%nat (pack bits) 0) (N.of_nat (k mod 8)%nat) = nth k bits false.
+Proof. exact pack_bit. Qed.
+Print Assumptions C03_pack_lsb_first.
+
+Theorem C03_pack_length : forall bits, len (pack bits) = bytes_for_bits (len bits).
+Proof. exact pack_length. Qed.
+Print Assumptions C03_pack_length.
 
 (* AddressRange::try_from accepts exactly the non-empty ranges inside the 16 bit address space,
    for all 2^32 constructor arguments (arithmetic, no enumeration). *)
